@@ -139,16 +139,15 @@ Definition xor_into (pattern inversions : list nat) : option (list nat) :=
   | Some k => if k =? m then Some (map (fun i => Nat.lxor (nth i pattern 0) (bget inversions i)) (seq 0 m)) else None
   | None => None
   end.
-(** logic.mv_xor(pattern, inv): out is fresh and has the broadcast shape, but _mv_xor builds any_unknown with
-    the shape of its FIRST operand and updates it in place (any_unknown |= ...), so the broadcast shape has
-    to be pattern's shape *)
+(** logic.mv_xor(pattern, inv): out is fresh and has the broadcast shape; since fix 666613e (D35) _mv_xor accumulates its masks
+    out of place, so ANY broadcastable pair of shapes is accepted (before, the broadcast shape had to be pattern's shape: a
+    one-element pattern against a longer inversion array raised) *)
 Definition mv_xor_arr (pattern : list nat) (inv : ndarr) : option (list nat) :=
   match inv with
   | Scal v => Some (map (fun p => mv_xor1 p v) pattern)
   | Arr l =>
       match bshape (List.length pattern) (List.length l) with
-      | Some k => if k =? List.length pattern
-                  then Some (map (fun i => mv_xor1 (bget pattern i) (bget l i)) (seq 0 k)) else None
+      | Some k => Some (map (fun i => mv_xor1 (bget pattern i) (bget l i)) (seq 0 k))
       | None => None
       end
   end.
